@@ -2800,7 +2800,8 @@ impl<'store> QueryIter<'store> {
                 Box::new(iter.filter_text_byref(text, true, " "))
             }
             &Constraint::Text(text, TextMode::CaseInsensitive) => {
-                Box::new(iter.filter_text_byref(text, false, " "))
+                //(not filter_text_byref: that one expects a text that is already lower-cased)
+                Box::new(iter.filter_text(text.to_string(), false, " "))
             }
             Constraint::Regex(regex) => Box::new(iter.filter_text_regex(regex.clone(), " ")),
             &Constraint::TextVariable(var) => {
@@ -3453,7 +3454,8 @@ impl<'store> QueryIter<'store> {
                 Box::new(iter.filter_text_byref(text, true))
             }
             &Constraint::Text(text, TextMode::CaseInsensitive) => {
-                Box::new(iter.filter_text_byref(text, false))
+                //(not filter_text_byref: that one expects a text that is already lower-cased)
+                Box::new(iter.filter_text(text.to_string(), false))
             }
             Constraint::Regex(regex) => Box::new(iter.filter_text_regex(regex.clone())),
             &Constraint::TextRelation { var, operator } => {
